@@ -19,6 +19,8 @@ type Rec struct {
 	Nest    bool   // xml/json: field a contains a nested a
 	Attr    string // xml: attribute k on the record element (which has element children)
 	Attr2   string // xml: a second attribute j (two attributes: a Go map in idr.JSONify2)
+	NS      string // xml: the record binds this prefix to uri://items and has a child <NS:q>
+	Raw     string // csv: the row as written (reader-level failures: bare quote, garbage after quote)
 }
 
 // Env is the part of an input around the records; fixed within one algebra case.
@@ -64,6 +66,9 @@ func jstr(s string) string {
 func (f Fmt) RenderRec(r Rec) string {
 	switch f.Name {
 	case "csv":
+		if r.Raw != "" {
+			return r.Raw + "\n"
+		}
 		return fmt.Sprintf("%s,%s,\"%s\"\n", strings.ReplaceAll(r.A, " ", "_"), r.B, r.C)
 	case "csv2":
 		return fmt.Sprintf("R|%s|%s|%s\n", r.A, r.B, r.C)
@@ -95,7 +100,14 @@ func (f Fmt) RenderRec(r Rec) string {
 		if r.Nest {
 			a += "<a>in</a>"
 		}
-		return fmt.Sprintf("<n%s><a>%s</a><b>%s</b><c>%s</c></n>", attr, a, xmlEsc(r.B), xmlEsc(r.C))
+		q := ""
+		if r.NS != "" {
+			// every record is self-contained for namespaces; different records may bind the SAME
+			// URI to DIFFERENT prefixes
+			attr += ` xmlns:` + r.NS + `="uri://items"`
+			q = "<" + r.NS + ":q>q" + xmlEsc(r.C) + "</" + r.NS + ":q>"
+		}
+		return fmt.Sprintf("<n%s><a>%s</a><b>%s</b><c>%s</c>%s</n>", attr, a, xmlEsc(r.B), xmlEsc(r.C), q)
 	}
 	panic("unknown format " + f.Name)
 }
@@ -177,6 +189,9 @@ func GenRec(r *vh.Rng, f Fmt, ok bool) Rec {
 	if f.Name == "xml" || f.Name == "json" {
 		rec.Nest = r.Chance(0.3)
 	}
+	if f.Name == "xml" && r.Chance(0.6) {
+		rec.NS = r.PickStr("a", "b", "a", "b", "zz")
+	}
 	if f.Name == "xml" && r.Chance(0.4) {
 		rec.Attr = r.PickStr("1", "2", "k", "v w")
 		if r.Chance(0.5) {
@@ -186,8 +201,20 @@ func GenRec(r *vh.Rng, f Fmt, ok bool) Rec {
 	return rec
 }
 
-// FailKinds are the three per-record failure kinds C10 names.
+// FailKinds are the three per-record TRANSFORM failure kinds C10 names.
 var FailKinds = []string{"cast", "multi-match", "custom-func"}
+
+// ReaderFailKinds are rows the old csv reader reports as continuable failures (encoding/csv
+// ParseError); none of them contains an unterminated quote, so each stays one row.
+var ReaderFailKinds = []string{"csv-bare-quote", "csv-garbage-after-quote", "csv-bare-quote-last-field"}
+
+// FailKindsFor lists the failure kinds usable for a format.
+func (f Fmt) FailKindsFor() []string {
+	if f.Name == "csv" {
+		return append(append([]string(nil), FailKinds...), ReaderFailKinds...)
+	}
+	return FailKinds
+}
 
 // MakeFailing turns a record into one on which the named fuse blows.
 func MakeFailing(rec Rec, kind string) Rec {
@@ -199,6 +226,12 @@ func MakeFailing(rec Rec, kind string) Rec {
 		rec.A, rec.C = "BOOM", "BOOM"
 	case "custom-func":
 		rec.A = "FAIL"
+	case "csv-bare-quote":
+		rec.Raw = `q"uo,1,2`
+	case "csv-garbage-after-quote":
+		rec.Raw = `"fig"s,6,green`
+	case "csv-bare-quote-last-field":
+		rec.Raw = `x,7,gre"en`
 	}
 	return rec
 }
@@ -211,7 +244,9 @@ type Features map[string]bool
 func (f Features) Keys() []string {
 	var ks []string
 	for k := range f {
-		ks = append(ks, k)
+		if !strings.HasPrefix(k, "field:") {
+			ks = append(ks, k)
+		}
 	}
 	sort.Strings(ks)
 	return ks
@@ -225,34 +260,68 @@ type group struct {
 	feature   string
 	fields    []string
 	templates []string
+	only      string // format the group is restricted to ("" = all)
 }
 
 var groups = []group{
-	{"plain", []string{`"a": {"xpath":"a"}`, `"c": {"xpath":"c","keep_empty_or_null":true}`}, nil},
-	{"cast", []string{`"b": {"xpath":"b","type":"int"}`}, nil},
+	{"plain", []string{`"a": {"xpath":"a"}`, `"c": {"xpath":"c","keep_empty_or_null":true}`}, nil, ""},
+	{"cast", []string{`"b": {"xpath":"b","type":"int"}`}, nil, ""},
 	{"identical-decls", []string{`"d1": {"xpath":"a"}`, `"d2": {"xpath":"a"}`,
-		`"o1": {"object":{"v":{"xpath":"c"}}}`, `"o2": {"object":{"v":{"xpath":"c"}}}`}, nil},
+		`"o1": {"object":{"v":{"xpath":"c"}}}`, `"o2": {"object":{"v":{"xpath":"c"}}}`}, nil, ""},
 	// the F2 shape: {"xpath":"a"} as an array element (query skipped, evaluated ON node a) and
 	// as an object field evaluated AT cursor a (query a/a) - same text, same node ID
 	{"identical-decls-anchoring", []string{`"arr": {"array":[{"xpath":"a"},{"xpath":"c"}]}`,
-		`"nest": {"xpath":"a","object":{"in":{"xpath":"a"},"self":{"xpath":"."}}}`}, nil},
+		`"nest": {"xpath":"a","object":{"in":{"xpath":"a"},"self":{"xpath":"."}}}`}, nil, ""},
 	{"template", []string{`"t1": {"template":"tpl"}`, `"t2": {"xpath":".","template":"tpl"}`,
 		`"ta": {"xpath":"a","template":"leaf"}`, `"tc": {"xpath":"c","template":"leaf"}`,
 		`"tarr": {"array":[{"xpath":"a","template":"leaf"},{"xpath":"c","template":"leaf"}]}`},
-		[]string{`"tpl": {"object":{"x":{"xpath":"a"},"y":{"xpath":"c"}}}`, `"leaf": {"custom_func":{"name":"upper","args":[{"xpath":"."}]}}`}},
+		[]string{`"tpl": {"object":{"x":{"xpath":"a"},"y":{"xpath":"c"}}}`, `"leaf": {"custom_func":{"name":"upper","args":[{"xpath":"."}]}}`}, ""},
 	{"xpath_dynamic", []string{`"dyn1": {"xpath_dynamic":{"const":"c"}}`,
 		`"dyn2": {"xpath_dynamic":{"custom_func":{"name":"concat","args":[{"const":"*[.='"},{"xpath":"c"},{"const":"'][1]"}]}}}`,
-		`"dyn3": {"xpath_dynamic":{"xpath":"c"}}`}, nil},
+		`"dyn3": {"xpath_dynamic":{"xpath":"c"}}`}, nil, ""},
 	{"javascript", []string{
 		`"js1": {"custom_func":{"name":"javascript","args":[{"const":"x+'!'+y"},{"const":"x"},{"xpath":"a"},{"const":"y"},{"xpath":"c"}]}}`,
 		`"js2": {"custom_func":{"name":"javascript","args":[{"const":"x.length*2"},{"const":"x"},{"xpath":"c","keep_empty_or_null":true}]}}`,
-		`"jsdyn": {"xpath_dynamic":{"custom_func":{"name":"javascript","args":[{"const":"v.length%2==0?'a':'c'"},{"const":"v"},{"xpath":"a","keep_empty_or_null":true}]}}}`}, nil},
+		`"jsdyn": {"xpath_dynamic":{"custom_func":{"name":"javascript","args":[{"const":"v.length%2==0?'a':'c'"},{"const":"v"},{"xpath":"a","keep_empty_or_null":true}]}}}`}, nil, ""},
 	{"javascript_with_context", []string{
 		`"ctx": {"custom_func":{"name":"javascript_with_context","args":[{"const":` + jstr(jsIIFE) + `}]}}`,
 		`"ctxa": {"xpath":"a","custom_func":{"name":"javascript_with_context","args":[{"const":"_node"}]}}`,
-		`"ctx2": {"custom_func":{"name":"javascript_with_context","args":[{"const":"_node.length"}]}}`}, nil},
-	{"fuses", []string{`"m": {"xpath":"*[normalize-space(.)='BOOM']"}`, `"f": {"custom_func":{"name":"failif","args":[{"xpath":"a"}]}}`}, nil},
-	{"external-const", []string{`"e": {"external":"ext1"}`, `"k": {"const":"K"}`}, nil},
+		`"ctx2": {"custom_func":{"name":"javascript_with_context","args":[{"const":"_node.length"}]}}`}, nil, ""},
+	{"fuses", []string{`"m": {"xpath":"*[normalize-space(.)='BOOM']"}`, `"f": {"custom_func":{"name":"failif","args":[{"xpath":"a"}]}}`}, nil, ""},
+	{"external-const", []string{`"e": {"external":"ext1"}`, `"k": {"const":"K"}`}, nil, ""},
+	// externals with a result type: one Schema object, several transforms with different externals
+	{"typed-externals", []string{`"ei": {"external":"ext_i","type":"int"}`, `"ef": {"external":"ext_f","type":"float"}`,
+		`"eb": {"external":"ext_b","type":"boolean"}`, `"es": {"external":"ext_s"}`}, nil, ""},
+	// the SAME template referenced several times at one cursor under DIFFERENT xpath_dynamic (and
+	// xpath) anchors: no reference may be a copy of another
+	{"template-dynamic-anchors", []string{
+		`"tda": {"xpath_dynamic":{"const":"a"},"template":"leaf2"}`,
+		`"tdc": {"xpath_dynamic":{"const":"c"},"template":"leaf2"}`,
+		`"tdb": {"xpath_dynamic":{"custom_func":{"name":"concat","args":[{"const":"*[position()="},{"const":"2"},{"const":"]"}]}},"template":"leaf2"}`,
+		`"txa": {"xpath":"a","template":"leaf2"}`, `"txc": {"xpath":"c","template":"leaf2"}`,
+		`"tdo": {"xpath_dynamic":{"const":"c"},"template":"obj2"}`, `"txo": {"xpath":"a","template":"obj2"}`,
+		`"tdarr": {"array":[{"xpath_dynamic":{"const":"a"},"template":"leaf2"},{"xpath_dynamic":{"const":"c"},"template":"leaf2"}]}`},
+		[]string{`"leaf2": {"custom_func":{"name":"concat","args":[{"const":"<"},{"xpath":"."},{"const":">"}]}}`,
+			`"obj2": {"object":{"self":{"xpath":"."}}}`}, ""},
+	// pairs of scripts that differ only in significant whitespace (inside a string literal; a
+	// newline after return: ASI makes the function return undefined)
+	{"js-whitespace", []string{
+		`"w1": {"no_trim":true,"custom_func":{"name":"javascript","args":[{"const":"x+' - '+y"},{"const":"x"},{"xpath":"a","keep_empty_or_null":true},{"const":"y"},{"xpath":"c","keep_empty_or_null":true}]}}`,
+		`"w2": {"no_trim":true,"custom_func":{"name":"javascript","args":[{"const":"x+'   -   '+y"},{"const":"x"},{"xpath":"a","keep_empty_or_null":true},{"const":"y"},{"xpath":"c","keep_empty_or_null":true}]}}`,
+		`"w3": {"custom_func":{"name":"javascript","ignore_error":true,"args":[{"const":"(function(){return 'r:'+x})()"},{"const":"x"},{"xpath":"a","keep_empty_or_null":true}]}}`,
+		`"w4": {"custom_func":{"name":"javascript","ignore_error":true,"args":[{"const":"(function(){return\n'r:'+x})()"},{"const":"x"},{"xpath":"a","keep_empty_or_null":true}]}}`,
+		`"w5": {"no_trim":true,"custom_func":{"name":"javascript","args":[{"const":"x+'\t-\t'+y"},{"const":"x"},{"xpath":"a","keep_empty_or_null":true},{"const":"y"},{"xpath":"c","keep_empty_or_null":true}]}}`}, nil, ""},
+	// scripts that THROW at run time while their args are set
+	{"js-throw", []string{
+		`"thr1": {"custom_func":{"name":"javascript","ignore_error":true,"args":[{"const":"(function(){throw new Error('boom')})()"},{"const":"discount"},{"xpath":"b"},{"const":"leak"},{"const":"L"}]}}`,
+		`"thr2": {"custom_func":{"name":"javascript","ignore_error":true,"args":[{"const":"nosuchfunction(discount)"},{"const":"discount"},{"xpath":"c","keep_empty_or_null":true}]}}`,
+		`"thr3": {"custom_func":{"name":"javascript_with_context","ignore_error":true,"args":[{"const":"null.x"},{"const":"discount"},{"const":"77","type":"int"}]}}`}, nil, ""},
+	// a script reading globals it was not passed
+	{"js-global-probe", []string{
+		`"probe": {"custom_func":{"name":"javascript","args":[{"const":"typeof discount === 'undefined' ? 0 : discount"}]}}`,
+		`"probe2": {"custom_func":{"name":"javascript","args":[{"const":"(typeof leak === 'undefined' ? 'none' : leak) + '/' + (typeof _node === 'undefined' ? 'none' : 'node')"}]}}`}, nil, ""},
+	// xml: the same namespace URI under different prefixes in different records
+	{"xmlns", []string{`"qa": {"xpath":"a:q"}`, `"qb": {"xpath":"b:q"}`, `"qany": {"xpath":"*[local-name()='q']"}`}, nil, "xml"},
 }
 
 // GenDecls draws a transform_declarations object.  must lists feature groups that have to be
@@ -270,7 +339,7 @@ func skipped(field string) bool {
 	return false
 }
 
-func GenDecls(r *vh.Rng, finalXPath string, must []string, extra []string) (string, Features) {
+func GenDecls(r *vh.Rng, format string, finalXPath string, must []string, extra []string) (string, Features) {
 	feats := Features{}
 	var fields, templates []string
 	want := map[string]bool{}
@@ -278,7 +347,10 @@ func GenDecls(r *vh.Rng, finalXPath string, must []string, extra []string) (stri
 		want[m] = true
 	}
 	for _, g := range groups {
-		if !want[g.feature] && !r.Chance(0.45) {
+		if g.only != "" && g.only != format {
+			continue
+		}
+		if !want[g.feature] && !r.Chance(0.4) {
 			continue
 		}
 		feats[g.feature] = true
@@ -288,6 +360,7 @@ func GenDecls(r *vh.Rng, finalXPath string, must []string, extra []string) (stri
 				continue
 			}
 			if want[g.feature] || r.Chance(0.8) {
+				feats["field:"+fl[1:strings.Index(fl[1:], `"`)+1]] = true
 				fields = append(fields, fl)
 			}
 		}
@@ -328,7 +401,7 @@ func (f Fmt) SchemaWith(r *vh.Rng, must []string, extra []string, env Env) (stri
 	if f.Name == "json" && env.Header {
 		finalXPath = "/recs/*"
 	}
-	decls, feats := GenDecls(r, finalXPath, must, extra)
+	decls, feats := GenDecls(r, f.Name, finalXPath, must, extra)
 	s := `{"parser_settings": ` + string(top["parser_settings"])
 	if fd, ok := top["file_declaration"]; ok {
 		s += `, "file_declaration": ` + string(fd)
@@ -350,6 +423,9 @@ func (f Fmt) AncestorField() string {
 	}
 	return ""
 }
+
+// Has reports whether the generated FINAL_OUTPUT has the named field.
+func (f Features) Has(field string) bool { return f["field:"+field] }
 
 // CtxField is a FINAL_OUTPUT field addressing the non-target context (xml/json with Env.Header).
 func (f Fmt) CtxField() string {
